@@ -602,10 +602,42 @@ func fanoutOrderFact() (found bool, ok bool, nGo int) {
 	return
 }
 
+// c19TravLimitFact: the argument of every `eg.SetLimit(…)` in graph/traversal.go and the condition of the enclosing `if`
+// (the Lean model of the walk gives the errgroup `limit + 1` slots, one of them held by the coordinator).
+func c19TravLimitFact() (args []string, guards []string) {
+	f := parse("graph/traversal.go")
+	var stack []ast.Node
+	ast.Inspect(f, func(n ast.Node) bool {
+		if n == nil {
+			stack = stack[:len(stack)-1]
+			return true
+		}
+		stack = append(stack, n)
+		if c, ok := n.(*ast.CallExpr); ok {
+			if se, ok := c.Fun.(*ast.SelectorExpr); ok && se.Sel.Name == "SetLimit" && len(c.Args) == 1 {
+				args = append(args, src(c.Args[0]))
+				g := ""
+				for i := len(stack) - 1; i >= 0; i-- {
+					if is, ok := stack[i].(*ast.IfStmt); ok {
+						g = src(is.Cond)
+						break
+					}
+				}
+				guards = append(guards, g)
+			}
+		}
+		return true
+	})
+	return
+}
+
 func init() {
 	extraGenerators = append(extraGenerators, func() (string, string) {
 		name, content := genGlobals()
 		found, ok, nGo := fanoutOrderFact()
+		largs, lguards := c19TravLimitFact()
+		trav := fmt.Sprintf("\n/-- graph/traversal.go: arguments of `eg.SetLimit` and the conditions guarding the calls -/\ndef travSetLimitArgs : List String := [%s]\ndef travSetLimitGuards : List String := [%s]\n", joinLean(largs), joinLean(lguards))
+		content = strings.Replace(content, "\nend CV.Gen\n", trav+"\nend CV.Gen\n", 1)
 		extra := fmt.Sprintf("\n/-- `WithServicesTransform` exists, starts its goroutines with `eg.Go` (%d call sites), and the calling goroutine's own\n    accesses to `newProject.Services` all precede the first of them -/\ndef fanoutFieldReadPrecedesSpawn : Bool := %v\n\nend CV.Gen\n", nGo, found && ok && nGo == 2)
 		content = strings.Replace(content, "\nend CV.Gen\n", extra, 1)
 		return name, content
